@@ -208,6 +208,19 @@ impl Property for C20 {
         out.class("top_hits-near-tie-not-judged");
       }
       if cmp == crate::props::c13::AggEq::Different {
+        // the listed finding explain-forces-scoring seen through top_hits: under exactly the condition under which
+        // the hits' own scores differ (scores not needed for ranking: a sort without _score, or a query without any
+        // scored term) the first-pass scores reported inside top_hits differ the same way (0.0 / 1.0 vs computed);
+        // every count, key and metric - everything but the hit lists of top_hits - must still be equal
+        let sort_uses_score = case.sort.is_empty() || case.sort.iter().any(|k| k["field"] == "_score");
+        if explain && (!sort_uses_score || plain_const) && crate::props::c13::agg_cmp(&crate::props::c13::without_top_hits_lists(&aa), &crate::props::c13::without_top_hits_lists(&ab), false) == crate::props::c13::AggEq::Same {
+          out.fail(SIG_EXPLAIN_SCORING, format!("{what}: top_hits scores {aa} vs {ab}; request {req}"));
+          if ctx.is_known(Self::ID, SIG_EXPLAIN_SCORING) {
+            out.excluded_known += 1;
+            continue;
+          }
+          return out;
+        }
         out.fail("aggregations-changed", format!("{what}: aggregations {aa} vs {ab}; request {req}"));
         return out;
       }
